@@ -329,4 +329,84 @@ example : (writeAll ({} : PQ).reset [([1, 2, 3], 10), ([4], 10), ([5, 6, 7], 11)
     ∧ ((writeAll ({} : PQ).reset [([1, 2, 3], 10), ([4], 10), ([5, 6, 7], 11)]).2.queue.map (·.data))
         = [[1, 2], [3, 4], [5, 6, 7]] := by decide
 
+
+/-! ## Typed reads and writes
+
+`PacketQueue` offers, beside `Bytes(n)` and `WriteBytes`, a method per integer width (`Uint8 … Int64`,
+`WriteUint8 … WriteInt64`, `Byte`, `WriteByte`), `String(n)` / `WriteString` and the `io.Reader` /
+`io.Writer` pair. Every one of them is the byte operation on a little-endian encoding (strings: on their
+bytes), which is how the line protocol treats them (`u i st rd`, `wu wi ws wy` — method variants of `b`
+and `w`, tied to the code by the C15 harness, which calls each real method). What that buys: typed access
+is as good a FIFO as byte access. -/
+
+/-- the little-endian encoding of width `w` has `w` bytes … -/
+theorem leEncode_length (w n : Nat) : (leEncode w n).length = w := by
+  induction w generalizing n with
+  | zero => rfl
+  | succ w ih => simp [leEncode, ih]
+
+/-- … and decodes to the value reduced to the width -/
+theorem leDecode_leEncode_mod (w n : Nat) : leDecode (leEncode w n) = n % 256 ^ w := by
+  induction w generalizing n with
+  | zero => simp [leEncode, leDecode, Nat.mod_one]
+  | succ w ih =>
+    simp only [leEncode, leDecode, ih]
+    have : (UInt8.ofNat (n % 256)).toNat = n % 256 := by
+      simp [UInt8.toNat_ofNat']
+    rw [this, Nat.pow_succ, Nat.mul_comm (256 ^ w) 256, Nat.mod_mul]
+
+/-- a typed read of width `w`: the little-endian value of the next `w` bytes, or not-enough-bytes -/
+def readUint (q : PQ) (w : Nat) : Option Nat × PQ :=
+  match q.bytes w with
+  | (.ok bs, q') => (some (leDecode bs), q')
+  | (_, q') => (none, q')
+
+/-- a typed write of width `w` at packet size `ps` -/
+def writeUint (q : PQ) (w v ps : Nat) : WrOut × PQ := q.writeBytes (leEncode w v) ps
+
+/-- **a typed read returns the little-endian value of exactly the next `w` unread bytes** — across packet
+boundaries — and consumes exactly those -/
+theorem c15_typed_read (q : PQ) (w : Nat) (hwf : q.WF) (hn : w ≤ q.unread.length) :
+    ∃ q', readUint q w = (some (leDecode (q.unread.take w)), q') ∧ q'.unread = q.unread.drop w ∧ q'.WF := by
+  obtain ⟨q', hb, hu, _, _, hwf'⟩ := c15_bytes_refines q w hwf hn
+  exact ⟨q', by simp [readUint, hb], hu, hwf'⟩
+
+/-- … and reports not-enough-bytes, never a value, when fewer than `w` bytes are unread -/
+theorem c15_typed_read_short (q : PQ) (w : Nat) (hwf : q.WF) (hn : q.unread.length < w) :
+    (readUint q w).1 = none := by
+  obtain ⟨bs, q', hb, _⟩ := c15_bytes_short q w hwf hn
+  simp [readUint, hb]
+
+/-- **what a typed write puts into the queue is read back as the value** (mod 2^(8w)): if the unread
+bytes start with the encoding of `v`, the typed read of the same width returns `v` reduced to the width -/
+theorem c15_typed_round_trip (q : PQ) (w v : Nat) (rest : Bytes) (hwf : q.WF)
+    (hq : q.unread = leEncode w v ++ rest) :
+    ∃ q', readUint q w = (some (v % 256 ^ w), q') ∧ q'.unread = rest := by
+  have hl : (leEncode w v).length = w := leEncode_length w v
+  have hn : w ≤ q.unread.length := by rw [hq, List.length_append, hl]; omega
+  obtain ⟨q', hr, hu, _⟩ := c15_typed_read q w hwf hn
+  refine ⟨q', ?_, ?_⟩
+  · rw [hr, hq, List.take_left' hl, leDecode_leEncode_mod]
+  · rw [hu, hq, List.drop_left' hl]
+
+/-- **typed writes lay the encodings out like byte writes**: from a reset queue any sequence of typed
+writes (any widths, values and packet sizes 9..65535) succeeds, and the used bytes of the packets are
+the little-endian encodings in order, every packet but the last full -/
+theorem c15_typed_write_layout (q0 : PQ) (ws : List (Nat × Nat × Nat))
+    (hws : ∀ x ∈ ws, 9 ≤ x.2.2 ∧ x.2.2 ≤ 65535) :
+    ∃ q', writeAll q0.reset (ws.map (fun x => (leEncode x.1 x.2.1, x.2.2))) = (.ok, q')
+      ∧ WInv q' (ws.map (fun x => leEncode x.1 x.2.1)).flatten := by
+  have h : ∀ y ∈ ws.map (fun x => (leEncode x.1 x.2.1, x.2.2)), 9 ≤ y.2 ∧ y.2 ≤ 65535 := by
+    intro y hy
+    obtain ⟨x, hx, rfl⟩ := List.mem_map.1 hy
+    exact hws x hx
+  obtain ⟨q', hw, hinv, _⟩ := c15_write_layout q0 _ h
+  refine ⟨q', hw, ?_⟩
+  simpa [List.map_map, Function.comp_def] using hinv
+
+/-- non-vacuity: a two-byte and a four-byte value written at packet size 10 (body 2) and read back -/
+example : (writeAll ({} : PQ).reset [(leEncode 2 513, 10), (leEncode 4 67305985, 10)]).1 = .ok
+    ∧ ((writeAll ({} : PQ).reset [(leEncode 2 513, 10), (leEncode 4 67305985, 10)]).2.queue.map (·.data))
+        = [[1, 2], [1, 2], [3, 4]] := by decide
+
 end Dblib.Props.C15
